@@ -152,10 +152,15 @@ def r12_1(run):
     writers = []
     for f in funcs:
         for c in calls(f.node, "set_user_pf_options"):
-            kws = sorted(k.arg for k in c.keywords if k.arg)
+            kws = sorted(k.arg for k in c.keywords if k.arg and k.arg != "reset")
+            # the second parameter (`reset`, positional or by keyword) empties the stored options: it must be absent or literally False
+            resets = [a for a in c.args[1:2]] + [k.value for k in c.keywords if k.arg == "reset"]
+            no_reset = all(isinstance(a, ast.Constant) and a.value is False for a in resets)
+            spread = any(k.arg is None for k in c.keywords) or len(c.args) > 2 or any(isinstance(a, ast.Starred) for a in c.args)
             writers.append((f.short, kws))
-            run.ob("%s|set_user_pf_options(%s)" % (f.short, ",".join(kws)), kws == ["hyd_flag"],
-                   "the only stored user option pipeflow writes is hyd_flag", run.where(f, c))
+            run.ob("%s|set_user_pf_options(%s)" % (f.short, ",".join(kws)), kws == ["hyd_flag"] and no_reset and not spread,
+                   "the only stored user option pipeflow writes is hyd_flag, and it never resets the stored options", run.where(f, c),
+                   detail=None if no_reset else "reset=%s" % U(resets[0]))
     # hook summaries: stores into arrays aliasing user columns
     n_h = 0
     from .c06 import HOOKS
